@@ -319,6 +319,15 @@ int dequeue_block(sqfs_block_processor_t *proc)
 			return status ? status : SQFS_ERROR_INTERNAL;
 		}
 
+		/* a block that a worker failed on is handed back like any
+		   other one; if nothing is submitted or dequeued after it,
+		   this is the only place left to notice */
+		status = proc->pool->get_status(proc->pool);
+		if (status != 0) {
+			release_old_block(proc, blk);
+			return status;
+		}
+
 		if (blk->flags & SQFS_BLK_IS_FRAGMENT) {
 			status = process_completed_fragment(proc, blk);
 			if (status != 0)
